@@ -33,6 +33,30 @@ def _same(a: NDArr, content_reader, j):
     return to_z3(a.read((j,))) == to_z3(content_reader((j,)))
 
 
+def readonly_append_unit(U):
+    """'readonly' disables writing completely: append on such a storage (also without start_writing) raises and
+    leaves the frames alone"""
+    def body(it):
+        it.ctx.assume(N >= 1)
+        st, frames, times, grid = _storage(it, 2, write_mode="readonly")
+        field = Instance(None, {"data": sym_array("field_data", (N,)), "grid": grid}, name="field")
+        try:
+            it.call(it.getattr(st, "append"), [field, z3.Real("t_new")], {})
+            outcome = "returned"
+        except Exception as e:  # PyRaise
+            outcome = getattr(e, "exc_type", type(e).__name__)
+        return st, frames, outcome
+
+    for p, res in enumerate(explore_paths(U, body)):
+        P = prem_of(res.ctx)
+        if res.outcome != "return":
+            U.prove(f"readonly.append.path{p}.harness", P, z3.BoolVal(False), info={"exc": str(res.exc)})
+            continue
+        st, frames, outcome = res.value
+        U.prove(f"readonly.append.path{p}.raises_RuntimeError", P, z3.BoolVal(outcome == "RuntimeError"), info={"outcome": outcome})
+        U.prove(f"readonly.append.path{p}.frames_untouched", P, z3.BoolVal(len(st.attrs["data"]) == 2 and all(a is b for a, b in zip(st.attrs["data"], frames)) and len(st.attrs["times"]) == 2))
+
+
 def append_unit(U):
     for k in (0, 1, 2):
         def body(it, k=k):
@@ -194,7 +218,7 @@ def extract_time_range_unit(U):
     def body(it):
         it.ctx.assume(N >= 1)
         st, frames, times, grid = _storage(it, 2)
-        it.ctx.assume(times[0] < times[1])
+        # the time stamps are arbitrary: appended sessions may restart the clock, so they need not be sorted
         made = []
 
         def MemoryStorage(times=None, data=None, field_obj=None, info=None, **kw):
@@ -390,7 +414,7 @@ def extract_field_unit(U):
 
 
 UNITS = [
-    ("append", append_unit), ("start_writing", start_writing_unit), ("_get_field.isolation", get_field_unit),
+    ("append", append_unit), ("append[readonly]", readonly_append_unit), ("start_writing", start_writing_unit), ("_get_field.isolation", get_field_unit),
     ("__getitem__.content", get_field_content_unit), ("clear", clear_unit), ("extract_time_range", extract_time_range_unit),
     ("items_and_iteration", items_unit), ("copy", copy_apply_unit("copy")), ("apply", copy_apply_unit("apply")), ("extract_field", extract_field_unit),
 ]
